@@ -190,8 +190,8 @@ def literal(v):
     if isinstance(v, bool):
         return "true" if v else "false"
     if isinstance(v, D):
-        if not v.is_finite():
-            return None
+        if not v.is_finite() or (v == 0 and v.is_signed()):
+            return None  # `-0.0` is the expression -(0.0), not necessarily the bound value
         t = format(v, "f")
         if len(t) > 40:
             return None
@@ -657,6 +657,7 @@ class Acc:
         self.sampled = set()
         self.asan_same = 0
         self.asan_batches = 0
+        self.retried_batches = 0
 
 
 def run(rep, tier, seed):
@@ -698,6 +699,14 @@ def run(rep, tier, seed):
             cases.append({"op": "evalmany", "scope": scope, "texts": [c["text"] for c in chunk]})
             spans.append((lo, len(chunk)))
         results, _ = runner.run_cases("dbg", cases, rep.workdir, label="bifs", case_timeout=60.0)
+        # a batch that made no progress for 60 s on a loaded machine is re-run alone with a 300 s budget;
+        # only a second failure to complete is reported (as hang:c08-batch)
+        stalled = [k for k, r in enumerate(results) if r is not None and "timeout" in r]
+        if stalled:
+            again, _ = runner.run_cases("dbg", [cases[k] for k in stalled], rep.workdir, label="bifs-retry", nshards=min(4, len(stalled)), case_timeout=300.0)
+            for k, r in zip(stalled, again):
+                results[k] = r
+            acc.retried_batches += len(stalled)
         judge(rep, acc, tuples, calls, cases, spans, results, interner, "dbg")
         if tier == "thorough":
             replay_on_asan(rep, acc, cases, results)
@@ -713,6 +722,7 @@ def run(rep, tier, seed):
     rep.extra["functions"] = len(rbif.SPECS)
     rep.extra["classes_with_null_reference"] = len(acc.null_classes - rep.distinct)
     rep.extra["batches"] = acc.batches
+    rep.extra["batches_rerun_after_a_stall"] = acc.retried_batches
     if tier == "thorough":
         rep.extra["asan_replayed_calls"] = acc.asan_same
         rep.extra["asan_replayed_batches"] = acc.asan_batches
@@ -768,10 +778,7 @@ def judge(rep, acc, tuples, calls, cases, spans, results, interner, variant):
     for (lo, cnt), res, case in zip(spans, results, cases):
         _harness_ok(res)
         if "rs" not in res:
-            if "timeout" in res:
-                rep.inconclusive_reason("a batch of %d invocations made no progress for 60 s" % cnt)
-            else:
-                rep.violation(crash_signature(res, "c08-batch"), "driver process died in a batch of built-in invocations: %s" % json.dumps(res)[:600], {"variant": variant, "case": case})
+            rep.violation(crash_signature(res, "c08-batch"), "driver process died or hung (twice, the second time alone with a 300 s budget) in a batch of built-in invocations: %s" % json.dumps(res)[:600], {"variant": variant, "case": case})
             continue
         if len(res["rs"]) != cnt:
             raise runner.Inconclusive("batch returned %d results for %d texts" % (len(res["rs"]), cnt))
@@ -784,9 +791,12 @@ def judge(rep, acc, tuples, calls, cases, spans, results, interner, variant):
                 observed[lo + k] = ("err", r)
     # ---- judge
     positional_obs = {}
+    literal_obs = {}
     for ci, call in enumerate(calls):
         if ci in observed and call["form"] == "positional":
             positional_obs[call["t"]] = observed[ci]
+        elif ci in observed and call["form"] == "literal":
+            literal_obs[call["t"]] = observed[ci]
     for ci, call in enumerate(calls):
         if ci not in observed:
             continue
@@ -827,13 +837,17 @@ def judge(rep, acc, tuples, calls, cases, spans, results, interner, variant):
                 rep.sample({"text": call["text"], "bindings": _bindings(call, args), "reference": rbif.show(expected), "observed": rbif.show(value)})
         # -- metamorphic: named == positional
         if call["form"] in ("named", "named-literal", "named-spec-name"):
-            pobs = positional_obs.get(ti)
+            # a named invocation with literal arguments is paired with the positional one spelled the same way
+            pobs = literal_obs.get(ti) if call["form"] == "named-literal" else positional_obs.get(ti)
             if pobs is not None and pobs[0] == "v":
                 acc.named_pairs += 1
                 acc.named_pairs_fn[fname] = acc.named_pairs_fn.get(fname, 0) + 1
                 if not rbif.same_observation(pobs[1], value):
                     sig = named_signature(fname, args, call, pobs[1], value)
-                    ptext = "%s(%s)" % (fname, ", ".join(interner.name(a) for a in args))
+                    if call["form"] == "named-literal":
+                        ptext = "%s(%s)" % (fname, ", ".join(literal(a) for a in args))
+                    else:
+                        ptext = "%s(%s)" % (fname, ", ".join(interner.name(a) for a in args))
                     two = {"op": "evalmany", "scope": _scope_of(interner, [interner.name(a) for a in args]), "texts": [call["text"], ptext]}
                     rep.violation(
                         sig,
